@@ -314,3 +314,38 @@ class Verdict:
         json.dump(ev, open(os.path.join(VERIF, "evidence", "%s.json" % self.prop), "w"), indent=1, ensure_ascii=False)
         sys.stdout.flush()
         return 1 if self.violations else 0
+
+
+# ---------------------------------------------------------------- the hyeong binary
+
+def scratch_dir(name):
+    d = os.path.join(BUILD, "scratch", name)
+    os.makedirs(d, exist_ok=True)
+    return d
+
+
+def run_hyeong(args, stdin_bytes=b"", timeout=10, release=False, cwd=None):
+    """Run the freshly built binary. Returns (exit_class, stdout_bytes, stderr_bytes); exit_class is
+    'exit<N>' | 'signal<N>' | 'timeout'."""
+    exe = HYEONG_REL if release else HYEONG
+    try:
+        p = subprocess.run([exe, "--color", "never"] + list(args), input=stdin_bytes, stdout=subprocess.PIPE,
+                           stderr=subprocess.PIPE, timeout=timeout, cwd=cwd)
+    except subprocess.TimeoutExpired as e:
+        return "timeout", e.stdout or b"", e.stderr or b""
+    rc = p.returncode
+    return ("exit%d" % rc if rc >= 0 else "signal%d" % (-rc)), p.stdout, p.stderr
+
+
+def split_run_stdout(out):
+    """program output = what follows the '==> running code' log line"""
+    marker = b"==> running code\n"
+    i = out.find(marker)
+    if i < 0:
+        return None
+    return out[i + len(marker):]
+
+
+def pmap(fn, items, workers=None):
+    with ThreadPoolExecutor(max_workers=workers or NCPU) as ex:
+        return list(ex.map(fn, items))
